@@ -699,7 +699,9 @@ def c14(tier, replay=None):
     # (M) the reader's token machine for let (SmtLetParser.tla, transcribed from parse_expr_or_type / NestedSymbolTable) against
     # the standard meaning of let on every term of a small language
     # (Repaired = TRUE: the reader after fix f506184, lets with several bindings; AgreeAll: machine = meaning on EVERY term)
-    consts = {"Full": "TRUE" if T else "FALSE", "Repaired": "TRUE"}
+    # (Full = TRUE - all 2.9 million terms of depth 2 - is available in the spec but not part of the registered commands:
+    #  TLC enumerates initial states on one thread, an hour or more on a loaded machine)
+    consts = {"Full": "FALSE", "Repaired": "TRUE"}
     mcfg = pv.write_cfg(chk.work / "SmtLetParser.cfg", constants=consts, invariants=("Agree", "AgreeAll"))
     r = pv.tlc_ok("SmtLetParser", mcfg, workers=8, timeout=7200, xmx="8g")
     chk.add_states(r.generated, r.distinct)
